@@ -119,7 +119,7 @@ def _force_state(ch, state):
     ch._RTCDataChannel__readyState = state
 
 
-def h_states(ctx, pre, event):
+def h_states(ctx, pre, event, negotiated=False):
     """One transport-level event from each abstract channel state; readyState only moves forward,
     at most one open / close emission, closed channels free their id."""
     with Env(crc=_crc()) as env:
@@ -137,7 +137,7 @@ def h_states(ctx, pre, event):
             ch = RTCDataChannel(t, RTCDataChannelParameters(label="l", id=cid))
             env.drain()
         else:
-            ch = env.channel(t, id=cid)
+            ch = env.channel(t, id=cid, negotiated=negotiated)
             if pre in ("closing", "closing-requested"):
                 ch.close()
                 if pre == "closing-requested":
@@ -462,7 +462,7 @@ HARNESSES = {
     "ids": Harness("ids", h_ids, lambda tier: [{"role": r, "nexisting": n} for r in ("controlling", "controlled") for n in (0, 1, 2, 3)], style="STEP", bounds="<=3 existing channels with symbolic distinct ids 0..12, both roles", encoded=ENC, stubs=STUBS, twin="id-allocated"),
     "flush-params": Harness("flush-params", h_flush_params, lambda tier: [{"n": n} for n in ((2,) if tier == "quick" else (2, 3))], style="BMC over configurations", bounds="2 (quick) / 3 negotiated channels of solver-chosen kind {reliable, maxRetransmits, maxPacketLifeTime, unordered}; 2 / 3 queued messages (DCEP or data, solver-chosen channel) flushed in one call", encoded=ENC + ["aiortc.rtcsctptransport:RTCSctpTransport._data_channel_flush"], stubs=STUBS + ["RTCSctpTransport._send -> recorder"], twin="flushed", opts={"samples": 1}),
     "close-early": Harness("close-early", h_close_early, lambda tier: [{"negotiated": n} for n in (True, False)], style="STEP", bounds="one channel with an explicit symbolic id 0..65534 (negotiated or in-band) closed before the association is established, the id re-used at once, then establishment", encoded=ENC, stubs=STUBS, twin="closed-early", opts={"samples": 1}),
-    "states": Harness("states", h_states, lambda tier: [{"pre": p, "event": e} for p in PRE for e in EVENTS], style="STEP", bounds="6 abstract pre-states x 7 events; channel id, DCEP message byte, stream ids and sequence numbers of the RE-CONFIG parameters symbolic (the solver decides whether they match the channel / the pending request)", encoded=ENC, stubs=STUBS, twin="event-processed"),
+    "states": Harness("states", h_states, lambda tier: [{"pre": p, "event": e} for p in PRE for e in EVENTS] + [{"pre": p, "event": e, "negotiated": True} for p in ("open", "closing", "closing-requested", "closed") for e in ("assoc-established", "assoc-closed", "dcep", "reset-in")], style="STEP", bounds="6 abstract pre-states x 7 events; channel id, DCEP message byte, stream ids and sequence numbers of the RE-CONFIG parameters symbolic (the solver decides whether they match the channel / the pending request)", encoded=ENC, stubs=STUBS, twin="event-processed"),
     "close-both": Harness("close-both", h_close_both, lambda tier: [{"when": w} for w in ("immediately", "after-open")], style="RT", bounds="close() immediately after create and after open, two transports exchanging real datagrams", encoded=ENC, stubs=STUBS, twin="close-exchanged"),
     "close-many": Harness("close-many", h_close_many, lambda tier: [{"n": n, "gap": g} for n in ((2, 3) if tier == "quick" else (2, 3, 4)) for g in ("after-request", "after-response")], style="BMC", bounds="2..3 (4) channels closed one after the other (first one solver-chosen) while the previous stream reset request is still unanswered or just answered; real RE-CONFIG datagrams between two transports", encoded=ENC, stubs=STUBS, twin="many-closed"),
     "buffered": Harness("buffered", h_buffered, lambda tier: [{}], style="STEP+LEMMA", bounds="current 0..2^20, threshold 0..2^32-1, amount +-2^20", encoded=ENC, stubs=STUBS, twin="added"),
